@@ -112,3 +112,35 @@ def thrFinish (returnFloat : Bool) (mask : Option (List Bool)) (tm : List Bool) 
   | some m => (.bool, List.zipWith (· && ·) tm m)
 
 end Darsia.Sig
+
+namespace Darsia.Sig
+
+/-! ### `CombinedModel.__call__(img, *args)`: sub-models whose `__call__` takes further positional arguments -/
+
+/-- a sub-model of a `CombinedModel`: one of the parameter models (`__call__(self, img)`), or a
+`StaticThresholdModel` (`__call__(self, img, mask=None)`) -/
+inductive Stage
+  | model (m : M)
+  | thrHom (lo : Rat) (hi : Option Rat) (rf : Bool)
+  | thrHet (lo : List Rat) (hi : Option (List Rat)) (rf : Bool)
+  deriving Repr
+
+/-- `model.__call__.__code__.co_argcount − 2`: how many of the extra arguments the sub-model is handed -/
+def Stage.extraArity : Stage → Nat
+  | .model _ => 0
+  | _ => 1
+
+def boolVals (r : DType × List Bool) : DType × List Rat := (r.1, r.2.map fun b => if b then 1 else 0)
+
+/-- one sub-model with the extra arguments it is handed (`model(result)` or `model(result, *args[:arity])`) -/
+def Stage.call (st : Stage) (labs : List Nat) (given : List (List Bool)) (d : DType) (xs : List Rat) : DType × List Rat :=
+  match st with
+  | .model m => (m.outDType d, m.call labs xs)
+  | .thrHom lo hi rf => boolVals (thrFinish rf given.head? (thrHomCall lo hi xs))
+  | .thrHet lo hi rf => boolVals (thrFinish rf given.head? (thrHetCall lo hi labs xs))
+
+/-- `CombinedModel.__call__(img, *args)`: every sub-model gets the running result and the first `arity` extra arguments -/
+def callStages (sts : List Stage) (labs : List Nat) (args : List (List Bool)) (d : DType) (xs : List Rat) : DType × List Rat :=
+  sts.foldl (fun acc st => st.call labs (args.take st.extraArity) acc.1 acc.2) (d, xs)
+
+end Darsia.Sig
